@@ -129,7 +129,14 @@ def run(ctx):
                 continue
             check_frame(ctx, {"message": m, "next_out": nout}, wire, enc[1])
     # through the real send_msg
-    sub = [m for m in cases[::8] if cc.impl_encode(m, "S", "T", 1, False)[0] != 2 and not any(cc.txt(k) in ("34", "43") for k, _ in m[1])
+    big = []
+    for k in range(4):      # frames well above any transport chunk size must still be handed over as one frame
+        m = ascii_only(cc.gen_wf_message(rng))
+        if cc.txt(m[0]) in ("4", "1"):
+            m = [cc.cp("D"), m[1]]
+        m = [m[0], [kv for kv in m[1] if cc.txt(kv[0]) != "58"] + [[cc.cp("58"), [0, cc.cp("x" * rng.choice([4090, 5000, 9000, 70000]))]]]]
+        big.append(m)
+    sub = big + [m for m in cases[::8] if cc.impl_encode(m, "S", "T", 1, False)[0] != 2 and not any(cc.txt(k) in ("34", "43") for k, _ in m[1])
            and cc.txt(m[0]) not in ("1",)]
     for m, (exc, written, nout) in zip(sub, send_through_connection(sub)):
         ctx.traces += 1
